@@ -63,7 +63,7 @@ inductive Res where
   | okNil | errStack | errVerify | ctxErr
   | version (v : Version)
   | noEvent | event (cfg : Slots)
-  | regOk | regFail | unregTrue | unregFalse
+  | regOk (h : Nat) | regFail | unregTrue | unregFalse
   | enableOk (v : Version) | enableErr
 deriving Repr, DecidableEq, Inhabited
 
@@ -91,9 +91,9 @@ deriving Repr, DecidableEq, Inhabited
 
 /-- a callback invocation -/
 inductive Call where
-  | onNew (old new : Slots)
+  | onNew (old new : Slots) (ser : Nat)
   | onErr (k : ErrK) (old : Slots) (new : Option Slots)
-  | user (h : Nat) (old new : Slots) (catchUp : Bool)
+  | user (h : Nat) (old new : Slots) (ser : Nat) (catchUp : Bool)
 deriving Repr, DecidableEq, Inhabited
 
 inductive CbPc where
@@ -128,12 +128,15 @@ inductive Obs where
   | verify (cfg : Slots) (ok : Bool) (byEnable : Bool)
   | reject (k : ErrK) (cause : Option Nat)           -- an update was rejected (cause = blocking reporter)
   | enter (c : Call)                                 -- callback entered
-  | queued (ev : CbEv) | dropped (ev : CbEv)
+  | queued (ev : CbEv) (skip : Bool) | dropped (ev : CbEv)       -- skip = skipVerify when the monitor submitted ev
+  | gotUpd (src v : Nat) (reply : Option Nat)          -- the monitor received a value update
+  | replied (c : Nat) (r : Res)                        -- the monitor answered blocking reporter c
+  | enableCalled (c : Nat)                             -- EnableVerification was called (delay mode)
   | withheld (ev : CbEv) (skip : Bool)               -- a global callback was not made for ev
   | srcErrIgnored (e : Nat) (skip : Bool)
   | ret (c : Nat) (r : Res)
   | seen (c : Nat) (v : Version)                     -- a reader obtained v from View/ViewVersion
-  | evRecv (c : Nat) (cfg : Slots)
+  | evRecv (c : Nat) (v : Version)
   | enabled (ok : Bool) (v : Version)
   | monExit
   | unregProcessed (h : Nat)
@@ -153,7 +156,7 @@ structure State where
   lastVersion : Option Slots
   cbch : List CbEv                  -- oldest first
   monCtl : List (Nat × Nat)         -- (client, call token) of the queued enable requests
-  events : Option Slots
+  events : Option Version           -- the Events channel (capacity 1)
   clients : List (Nat × CSt)
   cancelled : List Nat              -- context ids that are done; 0 is the Config context
   monDone : Bool
@@ -214,11 +217,11 @@ def capMonCtl : Nat := Facts.capMonCtl
 def callsFor (handles : List (Nat × Nat)) (lastSerial : Nat) (lastVersion : Option Slots) : CbEv → List Call
   | .watchErr k old new => [.onErr k old new]
   | .newCfg old new suppressed =>
-    (if Facts.globalGate suppressed then [.onNew old new.cfg] else []) ++
-      (handles.filter (fun h => !(Facts.cbSkip h.2 new.serial))).map (fun h => Call.user h.1 old new.cfg false)
+    (if Facts.globalGate suppressed then [.onNew old new.cfg new.serial] else []) ++
+      (handles.filter (fun h => !(Facts.cbSkip h.2 new.serial))).map (fun h => Call.user h.1 old new.cfg new.serial false)
   | .reg h ser cfg =>
     match cfg with
-    | some c => if Facts.catchUp ser lastSerial then [.user h c (lastVersion.getD []) true] else []
+    | some c => if Facts.catchUp ser lastSerial then [.user h c (lastVersion.getD []) lastSerial true] else []
     | none => []
   | .unreg _ _ _ => []
 
@@ -255,7 +258,8 @@ def admitCbSender (s : State) : State :=
     let s := { s with cbch := s.cbch ++ [ev] }
     match ev with
     | .unreg _ _ _ => s.waitOr c ctx (.waitDone ctx) .unregFalse
-    | _ => s.ret c .regOk
+    | .reg h _ _ => s.ret c (.regOk h)
+    | _ => s.ret c (.regOk 0)
   | _ => s
 
 def runCb (s : State) : Option State :=
@@ -287,10 +291,11 @@ def runCb (s : State) : Option State :=
 /-- `submitEvent`: non-blocking send on cbch.  With the Config context done and room in the
 channel Go picks at random; `choice = 1` means the event was not sent. -/
 def trySubmit (s : State) (ev : CbEv) (choice : Nat) : State :=
-  if cbRoom s && !(s.isCancelled 0 && choice == 1) then (enqueueCb s ev).logAdd (.queued ev)
+  if cbRoom s && !(s.isCancelled 0 && choice == 1) then (enqueueCb s ev).logAdd (.queued ev s.skipVerify)
   else s.logAdd (.dropped ev)
 
 def replyTo (s : State) (c : Nat) (r : Res) : State :=
+  let s := s.logAdd (.replied c r)
   match getC s.clients c with
   | .waitReply _ => s.ret c r
   | _ => s           -- the reporter gave up (context); the buffered reply is never read
@@ -335,7 +340,7 @@ def runMon (W : World) (s : State) (choice : Nat) : Option State :=
   | .sel => none
   | .gotValue src v reply =>
     let slots' := setSlot s.slots src v
-    let s := { s with slots := slots' }
+    let s := { s with slots := slots' }.logAdd (.gotUpd src v reply)
     if !W.stackOk slots' then some { s with mon := .submitErr .stack none reply }
     else if Facts.verifyOnUpdate s.skipVerify then some { s with mon := .verifyUpd slots' reply }
     else some { s with mon := .store slots' reply }
@@ -354,7 +359,7 @@ def runMon (W : World) (s : State) (choice : Nat) : Option State :=
     some ({ s with view := v, mon := .events s.view.cfg reply }.logAdd (.install v s.skipVerify))
   | .events old reply =>
     let s := match s.events with
-      | none => { s with events := some s.view.cfg }
+      | none => { s with events := some s.view }
       | some _ => s
     match reply with
     | some c => some { s with mon := .replyOk old c }
@@ -416,7 +421,8 @@ def offerCb (s : State) (c : Nat) (ev : CbEv) (ctx : Nat) (choice : Nat) : State
       let s := enqueueCb s ev
       match ev with
       | .unreg _ _ _ => s.waitOr c ctx (.waitDone ctx) .unregFalse
-      | _ => s.ret c .regOk
+      | .reg h _ _ => s.ret c (.regOk h)
+      | _ => s.ret c (.regOk 0)
     else if cancelled then s.ret c fail
     else s.blockClient c (.sendCb ev ctx)
 
@@ -427,7 +433,7 @@ def runClient (s : State) (c : Nat) (choice : Nat) : Option State :=
     | .view => some ((s.ret c (.version s.view)).logAdd (.seen c s.view))
     | .events =>
       match s.events with
-      | some cfg => some (({ s with events := none }.ret c (.event cfg)).logAdd (.evRecv c cfg))
+      | some v => some (({ s with events := none }.ret c (.event v.cfg)).logAdd (.evRecv c v))
       | none => some (s.ret c .noEvent)
     | .report src v blocking => some (offerW s c (.value src v (if blocking then some c else none)) ctx choice)
     | .reportErr src e => some (offerW s c (.srcErr src e) ctx choice)
@@ -439,6 +445,7 @@ def runClient (s : State) (c : Nat) (choice : Nat) : Option State :=
       else
         let cancelled := s.isCancelled ctx
         let room := s.mon == .sel || s.monCtl.length < capMonCtl
+        let s := s.logAdd (.enableCalled c)
         if room && !(cancelled && choice == 1) then
           let s := s.waitOr c ctx (.waitResp ctx) .ctxErr
           if s.mon == .sel then some { s with mon := .gotEnable c ctx }
